@@ -67,6 +67,12 @@ Theorem delivery_serves_each_subscriber_once : forall (s : list N) (o : mop),
 Proof. exact msg_step_nodup. Qed.
 Print Assumptions delivery_serves_each_subscriber_once.
 
+(* the websocket connection pool of an agent (add / fetch / remove under the pool's RWMutex) *)
+Theorem ws_pool_linearizable : forall threads sched,
+  lin_strong _ _ _ pool_step [] (tr (exec (atomic_prog pool_step) (start [] threads) sched)).
+Proof. intros. apply atomic_lin. Qed.
+Print Assumptions ws_pool_linearizable.
+
 Theorem inbox_linearizable : forall threads sched,
   lin_strong _ _ _ inbox_step [] (tr (exec (atomic_prog inbox_step) (start [] threads) sched)).
 Proof. intros. apply atomic_lin. Qed.
@@ -123,6 +129,12 @@ Theorem check_then_act_regions_ok : rmw_ok = true.
 Proof. vm_compute. reflexivity. Qed.
 Print Assumptions check_then_act_regions_ok.
 
+(* the handlers of the request/response rendezvous send inside a select with a time-out clause (Rendezvous.v's
+   [bounded = true] is the protocol the source implements) *)
+Theorem rendezvous_sends_bounded_ok : rendezvous_sends_bounded = true.
+Proof. vm_compute. reflexivity. Qed.
+Print Assumptions rendezvous_sends_bounded_ok.
+
 Theorem lock_order_acyclic : lock_order_ok = true.
 Proof. vm_compute. reflexivity. Qed.
 Print Assumptions lock_order_acyclic.
@@ -177,7 +189,9 @@ Theorem lock_table_asis_refuted :
      "batchedstore.store.Query"; "batchedstore.store.Batch"; "localkms.LocalKMS.writeToStore"; "ws.getConnPool"; "did.Store.SaveDID";
      "wallet.walletSessionManager.getSession"; "wallet.contentStore.safeSave"; "leveldb.Provider.OpenStore"]%string /\
   TableAsIs.split_rmw = [("batchedstore.store.Batch", "batchedstore.store.currentBatch");
-                         ("leveldb.Provider.OpenStore", "leveldb.Provider.dbs")]%string.
+                         ("leveldb.Provider.OpenStore", "leveldb.Provider.dbs")]%string /\
+  TableAsIs.unbounded_handlers = ["messagepickup.Service.handleStatus"; "messagepickup.Service.handleBatch";
+                                  "mediator.Service.handleKeylistUpdateResponse"]%string.
 Proof. vm_compute. repeat split; reflexivity. Qed.
 Print Assumptions lock_table_asis_refuted.
 
